@@ -135,7 +135,14 @@ impl BigRat {
 	}
 
 	pub(crate) fn is_integer(&self) -> bool {
-		self.den == 1.into()
+		if self.den == 1.into() {
+			return true;
+		}
+		// an unreduced fraction such as 4/2 is an integer too
+		match self.num.divmod(&self.den, &crate::interrupt::Never) {
+			Ok((_, remainder)) => remainder == 0.into(),
+			Err(_) => false,
+		}
 	}
 
 	pub(crate) fn try_as_biguint<I: Interrupt>(mut self, int: &I) -> FResult<BigUint> {
